@@ -2,7 +2,8 @@ SPECIFICATION Spec
 CONSTANTS
     Handlers = {h1, h2, h3}
     MaxSignals = 2
+    SigBuf = 2
     CheckBeforeSelect = TRUE
 INVARIANTS CountMatches CountNeverNegative NeverStuck
-PROPERTIES NoEarlyReturn GracefulCompletes
+PROPERTIES NoEarlyReturn GracefulCompletes TermHonoured IntHonoured
 CHECK_DEADLOCK FALSE
